@@ -179,7 +179,7 @@ Proof.
 Qed.
 Theorem parse_otpauth_url_total u : parse_otpauth_url u <> Panic.
 Proof.
-  unfold parse_otpauth_url. destruct u as [u|]; [|discriminate].
+  unfold parse_otpauth_url, strip_slash. destruct u as [u|]; [|discriminate].
   destruct (negb (beq (u_scheme u) (s2b "otpauth"))); [discriminate|].
   destruct (negb _ && negb _); [destruct (all_ascii _); discriminate|].
   destruct (cut1 58 _) as [[issuer account] found]. destruct (negb found); [discriminate|]. cbv zeta.
